@@ -99,13 +99,18 @@ def run_case(name, path, meta, keep=False, only_property=None):
 
 def run(only_property=None, names=None, keep=False):
     allc = cases()
-    results = []
+    todo = []
     for name, (path, meta) in allc.items():
         if names and name not in names:
             continue
         if only_property and not meta.get("expect_silent") and not any(e["property"] == only_property for e in meta.get("expect", [])):
             continue
-        results.append(run_case(name, path, meta, keep, only_property))
+        todo.append((name, path, meta))
+    # cases are independent scratch copies; fact extraction is serialised by extract.py's lock, the analysis runs in parallel
+    from concurrent.futures import ThreadPoolExecutor
+    jobs = max(1, int(os.environ.get("VERIF_JOBS", "0") or 0) or min(8, os.cpu_count() or 1))
+    with ThreadPoolExecutor(max_workers=jobs) as ex:
+        results = list(ex.map(lambda c: run_case(c[0], c[1], c[2], keep, only_property), todo))
     return results
 
 
